@@ -70,7 +70,11 @@ func (g *MultiPolygon) Polygon(i int) *Polygon {
 			ends[j] = end - offset
 		}
 	}
-	return NewPolygonFlat(g.layout, g.flatCoords[offset:g.endss[i][len(g.endss[i])-1]], ends)
+	// The capacity is capped at the polygon's own coordinates: a Push on the
+	// returned Polygon must not grow into the coordinates of the polygons
+	// that follow it in g.
+	end := g.endss[i][len(g.endss[i])-1]
+	return NewPolygonFlat(g.layout, g.flatCoords[offset:end:end], ends)
 }
 
 // Push appends a Polygon.
